@@ -65,7 +65,7 @@ def cfg_for(new):
         return None, None, "race_ok over the empty tuple does not exist"
     c = dict(fam=fam, cont=shape, n=n, feat="std" if std else "alloc", sub=bool(std and rdy), rdy=rdy,
              stream=bool(new.get("stream")), fallible=fam in ("race_ok",), group=fam in ("future_group", "stream_group"),
-             never=new.get("never", []), x=-1, maxX=BIG, conts=[], maxIns=BIG, maxRem=BIG, maxRes=BIG, maxExt=3)
+             never=new.get("never", []), x=-1, maxX=BIG, conts=[], maxIns=BIG, maxRem=BIG, maxRes=BIG, maxExt=3, maxFromIter=4)
     if fam in ("race", "zip") and n == 0:
         return None, None, "%s over zero inputs is outside the modelled domain" % fam
     c.update(bud)
@@ -125,8 +125,6 @@ def convert(paths, per_module_max=None, stride=1, per_file_max=None):
                     why = "poll after the final result (unspecified, not modelled)"
                 elif "skip" in kinds:
                     why = "vector skipped by the harness"
-                elif new["fam"] == "stream_group" and any(e["e"] == "insert" and e.get("key", 0) < 0 for e in evs):
-                    why = "extend (members without a key) not modelled"
                 elif any(e["e"] == "panic" and e.get("at") not in ("poll", "repoll") for e in evs):
                     why = "panic outside poll"
                 elif evs[-1]["e"] != "end":
@@ -201,8 +199,6 @@ def _convert_one(evs):
             why = "poll after the final result (unspecified, not modelled)"
         elif "skip" in kinds:
             why = "vector skipped by the harness"
-        elif new["fam"] == "stream_group" and any(e["e"] == "insert" and e.get("key", 0) < 0 for e in evs):
-            why = "extend (members without a key) not modelled"
         elif any(e["e"] == "panic" and e.get("at") not in ("poll", "repoll") for e in evs):
             why = "panic outside poll"
         elif evs[-1]["e"] != "end":
